@@ -87,7 +87,7 @@ def check(ctx, only=None, list_only=False):
                               "vec_znx_big_{add,sub,add_small,sub_small_a,sub_small_b,rotate,automorphism} aliased",
                               "vec_znx_normalize_base2k / vec_znx_big_normalize_base2k with res==a",
                               "znx_rotate_inplace_i64, znx_automorphism_inplace_i64 (selected by pointer equality)"],
-        "bounds": "aliasing patterns res==a, res==b, res==a==b (same pointer, same stride); limb counts 0..3 (0..4 thorough) in all orderings "
+        "bounds": "pointwise products reim / reim4 / cplx mul and addmul (ref and FMA, m up to 16) with r==a and r==b as exact polynomials; aliasing patterns res==a, res==b, res==a==b (same pointer, same stride); limb counts 0..3 (0..4 thorough) in all orderings "
                   "including res_size different from the aliased size; N in {2,4} (8 thorough; 8 for rotations by residue); both dispatch flags; "
                   "rotation/automorphism p symbolic for N<=4, all residues at N=8; k in {1,19,62} for normalization",
         "outside": "partial overlaps (not supported by the API); floating-point pointwise products r==a / r==b and inverse DFT over its own "
